@@ -26,6 +26,14 @@ def _ipool(tag, dom):
     unsigned = tag[0] == "u"
     if dom == "act":
         return list(range(-12, 13))
+    if dom == "cond":
+        p = [0] * 6 + [1, -1 if not unsigned else 1, 2, 3, 255, 127]
+        for k in (8, 9, 12, 15, 16, 24, 31, 32, 40, 62):
+            for m in (1, 3, -1, -2):
+                v = m * (1 << k)
+                if lo <= v <= hi:
+                    p += [v, v]
+        return p
     if dom in ("any", "any0", "nz"):
         if small:
             p = list(range(max(lo, -128), min(hi, 255) + 1)) + [lo, hi]
@@ -70,6 +78,9 @@ def _ipool(tag, dom):
 
 def _fpool(tag, dom):
     g = [k / 16.0 for k in range(-160, 161)]
+    if dom == "cond":
+        return [0.0] * 6 + [-0.0, 1.0, -1.0, 0.5, -0.5, 0.25, -0.25, 0.999, 2.0 ** -20, -(2.0 ** -20), 2.0 ** -120, 256.0, -512.0, 65536.0, 256.5,
+                            4294967296.0, 0.0625, 3.0, -7.5]
     if dom in ("any", "any0"):
         return g
     if dom == "act":
